@@ -395,12 +395,12 @@ def kindName : RawExpr → List Char
 
 /-- the parameter validator of the source rejects exactly the kinds the model's `invalidBindDescr` rejects, with the same
     descriptions -/
-theorem param_rejects_are_the_source's (raw : RawExpr) : invalidBindDescr raw = lookupAssoc (kindName raw) Gen.paramRejects := by
+theorem param_rejects_match_source (raw : RawExpr) : invalidBindDescr raw = lookupAssoc (kindName raw) Gen.paramRejects := by
   cases raw <;> rfl
 
 /-- the binder of the source rejects those kinds except the three targets (element, range, property) that only a
     parameter list refuses; so exactly variables, element / range / property targets and list / object patterns can be bound -/
-theorem bind_rejects_are_the_source's (raw : RawExpr) :
+theorem bind_rejects_match_source (raw : RawExpr) :
     lookupAssoc (kindName raw) Gen.bindRejects =
       (match raw with
        | .Index _ _ => none | .RangeIndex _ _ _ => none | .Prop _ _ _ => none
